@@ -20,7 +20,7 @@ C11_SHAPES = ['c11_shape_or', 'c11_shape_and', 'c11_shape_eq', 'c11_shape_ne', '
               'c11_shape_gt', 'c11_shape_ge', 'c11_prec_or_and', 'c11_prec_and_or', 'c11_prec_and_eq', 'c11_prec_eq_lt', 'c11_prec_lt_eq',
               'c11_assoc_lt_lt', 'c11_assoc_eq_ne', 'c11_assoc_or_or', 'c11_shape_lt_space_eq_is_not_le']
 
-ALL_V_UNITS = ['cond_chain', 'cond_parser', 'bindings', 'lexer_digits', 'token_stream', 'source_manager', 'layout',
+ALL_V_UNITS = ['cond_chain', 'cond_parser', 'bindings', 'lexer_digits', 'lexer_float', 'token_stream', 'source_manager', 'layout',
                'hlsl_bindings', 'hlsl_analyse', 'hlsl_expr', 'hlsl_literal', 'msl_literal', 'evaluator']
 
 PROPS = {
@@ -53,18 +53,24 @@ PROPS = {
         'title': 'Compilation is total: every input yields a result or a rendered diagnostic',
         # roll-up: panic / overflow / bounds freedom of every function under contract (tag C08 in each unit)
         'v_units': ALL_V_UNITS,
-        'k_groups': [],
+        'k_groups': [{'module': 'preprocess/lexer.rs',
+                      'harnesses': [('c08_float_exponent_total_bounded', 'bounded:inputs of at most 22 bytes')], 'tier': 'quick'}],
         'design_ref': 'DESIGN.md Part I, I.4 (C08)',
     },
     'C10': {
         'title': 'Lexing is lossless and numeric literals are exact',
-        'v_units': ['lexer_digits', 'token_stream', 'source_manager'],
+        'v_units': ['lexer_digits', 'lexer_float', 'token_stream', 'source_manager'],
         'k_groups': [
             {'module': 'text/location.rs',
              'harnesses': [('c10_location_table_inverse_bounded', 'bounded:2 files of <= 3 and <= 2 bytes')], 'tier': 'quick'},
             {'module': 'preprocess/lexer.rs',
              'harnesses': [('c10_int_type_suffix_table', 'complete'),
-                           ('c10_literal_int_dispatch_bounded', 'bounded:4-byte inputs, digit run <= 2')], 'tier': 'quick'},
+                           ('c10_literal_int_dispatch_bounded', 'bounded:4-byte inputs, digit run <= 2'),
+                           ('c10_literal_float_shape_fraction_bounded', 'bounded:token shape D.DD[suffix]'),
+                           ('c10_literal_float_shape_exponent_bounded', 'bounded:token shape D e sign D [suffix]'),
+                           ('c10_literal_float_shape_missing_parts_bounded', 'bounded:token shapes .DeD and D.'),
+                           ('c10_literal_float_rejects_integers_bounded', 'bounded:token shape DD'),
+                           ('c08_float_exponent_total_bounded', 'bounded:inputs of at most 22 bytes')], 'tier': 'quick'},
         ],
         'design_ref': 'DESIGN.md Part I, I.4 (C10)',
     },
